@@ -101,7 +101,7 @@ func registerStream() {
 		},
 		Components: streamComponents,
 		Workloads: []*Workload{
-			streamWorkload("schedule", map[string]int{"quick": 120000, "thorough": 6000000}, streamGenOpts{mode: "c02", maxFiles: 3, maxVals: 6, selectors: true, benign: true, sigProb: 35}),
+			streamWorkload("schedule", map[string]int{"quick": 400000, "thorough": 8000000}, streamGenOpts{mode: "c02", maxFiles: 3, maxVals: 6, selectors: true, benign: true, sigProb: 35}),
 		},
 	})
 	allFaults := []string{"TRUNC", "EIO", "CORRUPT", "STRAY"}
